@@ -6,6 +6,7 @@ CONSTANTS
   MaxDepth = 3
   MaxOut = 120
   Repaired = {"OnceAgain", "OnceFirst", "Flush", "Join", "Raw", "Nop", "Script", "Json"}
+  BlockFlushes = TRUE
   GenClears = TRUE
   EmitEdges = FALSE
 INIT Init
